@@ -6,6 +6,7 @@ import (
 	"os"
 	"path/filepath"
 	"strconv"
+	"strings"
 )
 
 // ChecksumResult contains page checksum verification results
@@ -143,30 +144,25 @@ func VerifyDataDirChecksums(dataDir string) (*DataDirChecksumResult, error) {
 				continue
 			}
 			
-			// Check if it's a numeric filenode
+			// Check if it's a numeric filenode, optionally followed by a
+			// numeric segment suffix (e.g., "12345", "12345.1", "12345.10")
 			name := f.Name()
-			if _, err := strconv.ParseUint(name, 10, 32); err != nil {
-				// Check for segment files (e.g., "12345.1")
-				if len(name) > 2 && name[len(name)-2] == '.' {
-					base := name[:len(name)-2]
-					if _, err := strconv.ParseUint(base, 10, 32); err != nil {
-						continue
-					}
-				} else {
+			base, segNum := name, uint32(0)
+			if dot := strings.LastIndexByte(name, '.'); dot >= 0 {
+				seg, err := strconv.ParseUint(name[dot+1:], 10, 32)
+				if err != nil {
 					continue
 				}
+				base, segNum = name[:dot], uint32(seg)
+			}
+			if _, err := strconv.ParseUint(base, 10, 32); err != nil {
+				continue
 			}
 			
 			filePath := filepath.Join(dbPath, f.Name())
 			data, err := os.ReadFile(filePath)
 			if err != nil || len(data) < PageSize {
 				continue
-			}
-			
-			// Determine segment number from filename
-			segNum := uint32(0)
-			if idx := len(name) - 1; idx > 0 && name[idx-1] == '.' {
-				segNum = uint32(name[idx] - '0')
 			}
 			
 			fileResult := VerifyFileChecksums(data, segNum)
